@@ -271,6 +271,62 @@ struct GenRange
     GenIt<S> end() const { return GenIt<S>{n, salt, nullptr}; }
 };
 
+// A single-pass range in the manner of a stream / generator view: begin() starts THE pass and already takes the first item
+// from the shared source, every increment takes the next one. Calling begin() a second time loses an item.
+struct PullState
+{
+    int n = 0;
+    int salt = 0;
+    int next = 0;    // items taken from the source so far
+    int begins = 0;  // informational
+    Counts* c = nullptr;
+};
+
+template <class S>
+struct PullIt
+{
+    using iterator_category = std::input_iterator_tag;
+    using value_type = S;
+    using difference_type = std::ptrdiff_t;
+    using pointer = const S*;
+    using reference = S;
+    PullState* st = nullptr;
+    int i = -1;  // -1: exhausted
+    S operator*() const
+    {
+        if (st->c) ++st->c->derefs;
+        return make_source<S>(i, st->salt);
+    }
+    PullIt& operator++()
+    {
+        if (st->c && i >= 0) ++st->c->incs;
+        i = st->next < st->n ? st->next++ : -1;
+        return *this;
+    }
+    PullIt operator++(int)
+    {
+        auto t = *this;
+        ++*this;
+        return t;
+    }
+    friend bool operator==(const PullIt& a, const PullIt& b) { return a.i == b.i; }
+    friend bool operator!=(const PullIt& a, const PullIt& b) { return a.i != b.i; }
+};
+
+template <class S>
+struct PullRange
+{
+    PullState* st;
+    PullIt<S> begin() const
+    {
+        ++st->begins;
+        PullIt<S> it{st, -1};
+        it.i = st->next < st->n ? st->next++ : -1;
+        return it;
+    }
+    PullIt<S> end() const { return PullIt<S>{st, -1}; }
+};
+
 enum Form
 {
     F_ARRAY_LVALUE,
@@ -288,10 +344,11 @@ enum Form
     F_INPUT_ITERATOR,
     F_REVERSE_ITERATOR,
     F_DEQUE_ITERATOR,
+    F_SINGLE_PASS_RANGE,
     F_COUNT
 };
 const char* FORM_NAME[F_COUNT] = {"std::array&", "std::array&&", "std::vector&", "std::vector&&", "C array&", "std::list&", "std::list&&", "generated input range", "pointer",
-                                  "vector::iterator", "list::iterator", "move_iterator", "counting input iterator", "reverse_iterator", "deque::iterator"};
+                                  "vector::iterator", "list::iterator", "move_iterator", "counting input iterator", "reverse_iterator", "deque::iterator", "single-pass range (begin() starts the pass)"};
 
 struct Stats
 {
@@ -322,7 +379,7 @@ void cell(const char* pair_name, int n)
     constexpr bool RVALUE_FORM = FORM == F_ARRAY_RVALUE || FORM == F_VECTOR_RVALUE || FORM == F_LIST_RVALUE || FORM == F_MOVE_ITERATOR;
     constexpr bool ITERATOR_FORM = FORM == F_POINTER || FORM == F_CONTIGUOUS_ITERATOR || FORM == F_LIST_ITERATOR || FORM == F_MOVE_ITERATOR || FORM == F_INPUT_ITERATOR ||
                                    FORM == F_REVERSE_ITERATOR || FORM == F_DEQUE_ITERATOR;
-    constexpr bool GENERATED = FORM == F_GENERATED_RANGE || FORM == F_INPUT_ITERATOR;
+    constexpr bool GENERATED = FORM == F_GENERATED_RANGE || FORM == F_INPUT_ITERATOR || FORM == F_SINGLE_PASS_RANGE;
     // which cells exist
     if constexpr (!FIXED && ITERATOR_FORM)
         return;  // a VaryingSize parameter takes a range (its length is the size)
@@ -484,6 +541,13 @@ void cell(const char* pair_name, int n)
             else if constexpr (FORM == F_INPUT_ITERATOR)
             {
                 emplace(GenIt<S>{0, salt, &counts});
+            }
+            else if constexpr (FORM == F_SINGLE_PASS_RANGE)
+            {
+                PullState st{n, salt, 0, 0, &counts};
+                PullRange<S> r{&st};
+                emplace(r);
+                if (st.next != n) violation("C15", "items_consumed", fmt("%s: %d items were taken from the single-pass source, the parameter holds %d", name.c_str(), st.next, n));
             }
             // ---- stored values
             std::vector<long long> got;
